@@ -52,7 +52,11 @@ impl Inst {
     fn step(&mut self, s: &Session, ei: usize) {
         match &s.events[ei] {
             Ev::New { opts, .. } => {
-                self.slot = Some(Slot::new(*opts));
+                let mut sl = Slot::new(*opts);
+                if s.max_chunk > 0 {
+                    sl.set_max_chunk(s.max_chunk);
+                }
+                self.slot = Some(sl);
             }
             Ev::Reader { .. } => {
                 if let Some(sl) = self.slot.as_mut() {
